@@ -65,7 +65,7 @@ def generate(tier, rng):
                 yield f'mice.all {d} 16384 {hh} {hexs(s[:8] + b"".join(u))}'
         # record-size field edits and limits
         if len(s) >= 8:
-            for nrs in (0, 1, rs - 1, rs + 1, rs + 32, 2 * rs, 16384, 16385, 2**32, 2**63 - 1):
+            for nrs in (0, 1, rs - 1, rs + 1, rs + 32, 2 * rs, 16384, 16385, 2**32, 2**63 - 1, 2**63, 2**64 - 33, 2**64 - 32, 2**64 - 31, 2**64 - 16, 2**64 - 2, 2**64 - 1):
                 if nrs < 0: continue
                 yield f'mice.all {d} 16384 {hh} {hexs(nrs.to_bytes(8, "big") + s[8:])}'
             for mx in (0, rs - 1, rs, rs + 1):
